@@ -8,7 +8,7 @@ namespace AQ.H3
 section
 variable {σ : Type} (o : Oracle σ) (cfg : Cfg)
 
-theorem loop_merge (hnb : NonBlocking o) (ht : cfg.k.truncatedNoError = false)
+theorem loop_merge (ht : cfg.k.truncatedNoError = false)
     (hsil : cfg.k.silentFrameNoEnd = false) (hlog : cfg.k.logDecode = false) (c2 : Bytes) (e : Bool) :
     ∀ (f1 : Nat) (s : Stream) (q : σ) (B1 : Bytes) (f2 : Nat),
       s.frameSize = none → s.sessionId = none → s.blocked = false → s.receivingEnded = false → s.buffer = [] →
@@ -145,7 +145,12 @@ theorem loop_merge (hnb : NonBlocking o) (ht : cfg.k.truncatedNoError = false)
                       all_goals (first | rfl | exact hsess | exact hblk | exact hbuf)
                   | ok fr =>
                     cases fr with
-                    | blocked q1 pp => exact absurd hA (handleFrame_notBlocked o cfg hnb _ _ _ _ _ _ _)
+                    | blocked q1 pp =>
+                      -- the last frame waits for the encoder stream in both runs
+                      rw [hA] at hE
+                      dsimp only at hE
+                      rw [hE]
+                      simp [loopPost, andThen, recvReq, REq, NEq.refl, hre]
                     | done p2 q2 evA =>
                       rw [hA] at hE
                       dsimp only at hE
@@ -166,7 +171,9 @@ theorem loop_merge (hnb : NonBlocking o) (ht : cfg.k.truncatedNoError = false)
                   | error x => simp [loopPost, andThen, REq]
                   | ok fr =>
                     cases fr with
-                    | blocked q1 pp => exact absurd hhf (handleFrame_notBlocked o cfg hnb _ _ _ _ _ _ _)
+                    | blocked q1 pp =>
+                      -- the frame waits for the encoder stream: later deliveries are only buffered
+                      simp [loopPost, andThen, recvReq, REq, NEq.refl, hre]
                     | done p2 q2 ev =>
                       dsimp only
                       rw [loopPost_prepend, loopPost_prepend, andThen_pre]
@@ -181,7 +188,7 @@ theorem loop_merge (hnb : NonBlocking o) (ht : cfg.k.truncatedNoError = false)
                 by_cases hdata : t = 0
                 · -- a DATA frame of which only the first `r2.length` bytes have arrived
                   subst hdata
-                  exact data_partial_merge o cfg hnb ht { s with frameType := some 0, frameSize := some sz } q r2 c2 e n m sz
+                  exact data_partial_merge o cfg ht { s with frameType := some 0, frameSize := some sz } q r2 c2 e n m sz
                     rfl rfl hlt hsess hblk hre hbuf (by simp at hf2 ⊢; omega)
                 · -- a non-DATA frame whose payload is not complete after the first delivery
                   have hL : bodyLoop o cfg false n { s with frameType := some t, frameSize := some sz } q r2 =
@@ -260,7 +267,7 @@ theorem recvReq_nil_fresh {s : Stream} (h : Fresh s) (q : σ) : recvReq o cfg s 
   rw [this]
 
 /-- two consecutive deliveries on a fresh stream = one delivery of the concatenation -/
-theorem merge (hnb : NonBlocking o) (ht : cfg.k.truncatedNoError = false)
+theorem merge (ht : cfg.k.truncatedNoError = false)
     (hsil : cfg.k.silentFrameNoEnd = false) (hlog : cfg.k.logDecode = false)
     {s : Stream} (hs : Fresh s) (q : σ) (c1 c2 : Bytes) (e : Bool) :
     REq (andThen (recvReq o cfg s q c1 false) (fun s1 q1 => recvReq o cfg s1 q1 c2 e))
@@ -278,7 +285,7 @@ theorem merge (hnb : NonBlocking o) (ht : cfg.k.truncatedNoError = false)
     simp only [List.nil_append]
     have hw : withRE false s = s := withRE_self s hs.receivingEnded
     rw [hw]
-    exact loop_merge o cfg hnb ht hsil hlog c2 e _ s q c1 _ hs.frameSize hs.sessionId hs.blocked
+    exact loop_merge o cfg ht hsil hlog c2 e _ s q c1 _ hs.frameSize hs.sessionId hs.blocked
       hs.receivingEnded hs.buffer (Nat.lt_succ_self _) (Nat.lt_succ_self _) (fun h => absurd h hc1)
 
 /-- deliver `(bytes, fin)` one after the other -/
@@ -309,7 +316,7 @@ theorem feedAll_append (a b : List (Bytes × Bool)) : ∀ (s : Stream) (q : σ),
     exact ih s1 q1
 
 /-- any number of non-final deliveries = one delivery of their concatenation -/
-theorem feedAll_nofin (hnb : NonBlocking o) (ht : cfg.k.truncatedNoError = false)
+theorem feedAll_nofin (ht : cfg.k.truncatedNoError = false)
     (hsil : cfg.k.silentFrameNoEnd = false) (hlog : cfg.k.logDecode = false)
     {s : Stream} (hs : Fresh s) (q : σ) (chunks : List Bytes) :
     REq (feedAll o cfg s q (chunks.map (·, false))) (recvReq o cfg s q chunks.flatten false) := by
@@ -327,18 +334,18 @@ theorem feedAll_nofin (hnb : NonBlocking o) (ht : cfg.k.truncatedNoError = false
     rw [List.reverse_cons, List.map_append, feedAll_append]
     simp only [List.map_cons, List.map_nil, feedAll_single, List.flatten_append, List.flatten_cons,
       List.flatten_nil, List.append_nil]
-    exact REq.trans (REq.andThen ih _) (merge o cfg hnb ht hsil hlog hs q cs.reverse.flatten c false)
+    exact REq.trans (REq.andThen ih _) (merge o cfg ht hsil hlog hs q cs.reverse.flatten c false)
 
 /-- `chunks` delivered without FIN, then `last` with FIN flag `fin` -/
-theorem feedAll_chunks (hnb : NonBlocking o) (ht : cfg.k.truncatedNoError = false)
+theorem feedAll_chunks (ht : cfg.k.truncatedNoError = false)
     (hsil : cfg.k.silentFrameNoEnd = false) (hlog : cfg.k.logDecode = false)
     {s : Stream} (hs : Fresh s) (q : σ) (chunks : List Bytes) (last : Bytes) (fin : Bool) :
     REq (feedAll o cfg s q (chunks.map (·, false) ++ [(last, fin)]))
         (recvReq o cfg s q (chunks.flatten ++ last) fin) := by
   rw [feedAll_append]
   simp only [feedAll_single]
-  exact REq.trans (REq.andThen (feedAll_nofin o cfg hnb ht hsil hlog hs q chunks) _)
-    (merge o cfg hnb ht hsil hlog hs q chunks.flatten last fin)
+  exact REq.trans (REq.andThen (feedAll_nofin o cfg ht hsil hlog hs q chunks) _)
+    (merge o cfg ht hsil hlog hs q chunks.flatten last fin)
 
 end
 end AQ.H3
